@@ -5,7 +5,7 @@ COQ_PROPS = ["Properties_C05.v"]; COQ_EXTRACT = "Extract_C05.v"
 LEVEL = "proof"
 RULE = ("cases = explicit tree automata over {a/0,b/0,g/1,f/2}(+h/3): corpus; complete slice (all automata with <=2 states and <=3 rules); targeted "
         "(duplicated states = several simulation-equivalent final and non-final states, sparse numbers, useless states, simulation-comparable but "
-        "inequivalent states); random up to 5 states. Non-trivial = non-empty language and the result has fewer states than the input; distinct by rule/final sets")
+        "inequivalent states); histories (Reduce, the same object extended in place without a new state, Reduce again); random up to 5 states. Non-trivial = non-empty language and the result has fewer states than the input; distinct by rule/final sets")
 EXHAUSTIVE_SLICES = "all automata with 1 state,<=4 rules and 2 states,<=3 rules over {a/0,b/0,g/1,f/2}, every final set (the run as a whole is not exhaustive)"
 TRUSTED_BASE = [
     "Coq 8.16.1 kernel (coqc, full .vo build); vm_compute only in Examples; no native_compute",
@@ -51,6 +51,14 @@ def cases(rng, tier):
             if p == q and rng.random() < 0.6: a.rules.append((f, c, ch))
         a.rules.append((3, rng.choice(st), (c, q)))
         cs.append(("red " + a.fmt(), "targeted"))
+    for _ in range(1200 if tier == "quick" else 12000):   # histories: Reduce, in-place extension of the SAME object (no new state), Reduce again
+        a = dup_states(rng, gen.rand_ta_sized(rng, 3, 6, leafbias=0.4, pfinal=0.5))
+        if rng.random() < 0.3: a, _ = gen.permute_states(rng, a, sparse=True)
+        st = sorted(a.states()) or [0]
+        a2 = a.copy()
+        a2.rules = a.rules + gen.rand_ta(rng, 0, rng.randint(1, 3), states=st, leafbias=0.5).rules
+        if rng.random() < 0.3: a2.finals = a.finals + [rng.choice(st)]
+        cs.append(("red2 %s %s" % (a.fmt(), a2.fmt()), "history"))
     n = 2000 if tier == "quick" else 40000
     for _ in range(n):
         a = gen.rand_ta_sized(rng, 5, 9, sigma=rng.choice([gen.SIGMA, gen.SIGMA3]))
@@ -60,11 +68,24 @@ def cases(rng, tier):
 def nontrivial(c, impl, verd): return " nonempty" in verd and " shrunk" in verd
 def observe(dist, c, impl, verd):
     toks = verd.split()
-    for k in ("empty", "nonempty", "shrunk", "same"):
+    for k in ("empty", "nonempty", "shrunk", "same", "history"):
         if k in toks: dist[k] = dist.get(k, 0) + 1
-def shrink_candidates(c): return gen.shrink_automata(c)
+def shrink_candidates(c):
+    if not c.startswith("red2"): return gen.shrink_automata(c)
+    return shrink_history(c)
+def shrink_history(c):
+    """the second automaton extends the first (rule list prefix, finals superset): shrink both consistently"""
+    items = gen.split_case(c); a, a2 = items[1], items[2]
+    n = len(a.rules)
+    for j in range(len(a2.rules)):
+        b2 = a2.copy(); b2.rules.pop(j); b = a.copy()
+        if j < n: b.rules.pop(j)
+        yield gen.join_case([items[0], b, b2])
+    for f in list(a2.finals):
+        b2 = a2.copy(); b2.finals = [x for x in a2.finals if x != f]; b = a.copy(); b.finals = [x for x in a.finals if x != f]
+        yield gen.join_case([items[0], b, b2])
 def explain(c, impl, verd):
-    return ("case = red <A>; impl = R <Reduce result> I <operand afterwards>; gates: lang (same language, C05_gate), states_grow, rules_grow, "
+    return ("case = red <A> (or red2 <A> <A2>: Reduce on an object holding A, the same object extended in place to A2, Reduce again; gates of the second call are prefixed again_); impl = R <Reduce result> I <operand afterwards>; gates: lang (same language, C05_gate), states_grow, rules_grow, "
             "onto (every result state has the state language of some state of A), operand_changed")
 LEVEL_TEXT = ("Coq theorems (all automata, no bounds): collapsing states by ANY representative map that stays, in both directions, inside ANY relation "
               "accepted by the downward-simulation checker, followed by pruning of unreachable states, keeps the language; the numbers of distinct "
